@@ -481,7 +481,8 @@ def _mm_table(run, F, PV, upd, D):
             return e.value
         if isinstance(e, ast.Name) and e.id in env:
             return env[e.id]
-        if isinstance(e, ast.Call) and isinstance(e.func, ast.Name) and e.func.id == "len" and len(e.args) == 1 and norm(e.args[0]) == "block":
+        if isinstance(e, ast.Call) and isinstance(e.func, ast.Name) and e.func.id == "len" and len(e.args) == 1 \
+                and norm(e.args[0]) in ("block", f"rlp.decode(bytes.fromhex({pr}))"):
             return env["$n"]
         if isinstance(e, (ast.List, ast.Tuple, ast.Set)):
             return [iev(x, env) for x in e.elts]
@@ -540,10 +541,14 @@ def _mm_table(run, F, PV, upd, D):
                                     x = x.body if iev(fold_consts(P, x.test, rm, None, locals_={"block"}), env) else x.orelse
                                 except (Unknown, KeyError, TypeError):
                                     break
+                        DEC = f"rlp.decode(bytes.fromhex({pr}))"
+                        base_ = None
                         try:
-                            if isinstance(x, ast.Name) and x.id == "block":
+                            if (isinstance(x, ast.Name) and x.id == "block") or norm(x) == DEC:
                                 kept = list(range(n))
-                            elif isinstance(x, ast.Subscript) and norm(x.value) == "block" and isinstance(x.slice, ast.Slice):
+                                base_ = norm(x)
+                            elif isinstance(x, ast.Subscript) and norm(x.value) in ("block", DEC) and isinstance(x.slice, ast.Slice):
+                                base_ = norm(x.value)
                                 sl = slice(*(None if b_ is None else iev(fold_consts(P, b_, rm, None, locals_={"block"}), env)
                                              for b_ in (x.slice.lower, x.slice.upper, x.slice.step)))
                                 kept = list(range(n))[sl]
@@ -552,9 +557,12 @@ def _mm_table(run, F, PV, upd, D):
                         except (Unknown, KeyError, TypeError):
                             kept = None
                         okc = kept == list(range(keep))
-                        why = f"keeps fields {kept if kept is None or len(kept) < 6 else str(kept[:2])[:-1] + ', ..., ' + str(kept[-1]) + ']'} of {n}"
+                        if kept is None:
+                            why = f"returns `{norm(v)[:100]}` (slice not closed under the case)"
+                        else:
+                          why = f"keeps fields {kept if kept is None or len(kept) < 6 else str(kept[:2])[:-1] + ', ..., ' + str(kept[-1]) + ']'} of {n}"
                         bd_ = lf.env.get("block", lf.bind.get("block"))
-                        okc = okc and bd_ is not None and norm(bd_) == f"rlp.decode(bytes.fromhex({pr}))"
+                        okc = okc and (base_ == DEC or (bd_ is not None and norm(lf.deep(bd_)) == DEC))
                 run.check("R5", okc, f"[{desc}] -> rlp.encode of the first {keep} fields{' in hex' if hx else ''}", key=f"remove_mm_fields_if_present|slice-table|{n}|{leave}|{hx}",
                           where=rm.loc(), message=f"merge-mining slice table, case [{desc}]: {why}; expected rlp.encode(block[:{keep}]){'.hex()' if hx else ''} of the decoded header")
     run.floor("R5", "slice-table cases", n_cases, 32)
@@ -593,30 +601,32 @@ def _mm_table(run, F, PV, upd, D):
     # next b - 0xF7 bytes, anything else -> ValueError.  Early returns, chained comparisons, elif ladders all give the same table.
     bsn = fl.params[0]
 
-    def bev(e, bval):
+    def bev(e, bval, names=None):
         if isinstance(e, ast.Constant):
             return e.value
+        if isinstance(e, ast.Name) and names and e.id in names:
+            return names[e.id]
         if isinstance(e, ast.Subscript) and norm(e) == f"{bsn}[0]":
             return bval
         if isinstance(e, ast.UnaryOp) and isinstance(e.op, ast.Not):
-            return not bev(e.operand, bval)
+            return not bev(e.operand, bval, names)
         if isinstance(e, ast.UnaryOp) and isinstance(e.op, ast.USub):
-            return -bev(e.operand, bval)
+            return -bev(e.operand, bval, names)
         if isinstance(e, ast.BinOp) and type(e.op) in (ast.Add, ast.Sub, ast.LShift, ast.BitOr, ast.BitAnd, ast.Mult):
-            a_, b_ = bev(e.left, bval), bev(e.right, bval)
+            a_, b_ = bev(e.left, bval, names), bev(e.right, bval, names)
             return {ast.Add: lambda: a_ + b_, ast.Sub: lambda: a_ - b_, ast.LShift: lambda: a_ << b_, ast.BitOr: lambda: a_ | b_,
                     ast.BitAnd: lambda: a_ & b_, ast.Mult: lambda: a_ * b_}[type(e.op)]()
         if isinstance(e, ast.BoolOp):
-            vs = [bev(v, bval) for v in e.values]
+            vs = [bev(v, bval, names) for v in e.values]
             return all(vs) if isinstance(e.op, ast.And) else any(vs)
         if isinstance(e, (ast.List, ast.Tuple)):
-            return [bev(x, bval) for x in e.elts]
+            return [bev(x, bval, names) for x in e.elts]
         if isinstance(e, ast.Call) and norm(e.func) == "range" and 1 <= len(e.args) <= 2 and not e.keywords:
-            return range(*[bev(a_, bval) for a_ in e.args])
+            return range(*[bev(a_, bval, names) for a_ in e.args])
         if isinstance(e, ast.Compare):
-            l_ = bev(e.left, bval)
+            l_ = bev(e.left, bval, names)
             for o, c_ in zip(e.ops, e.comparators):
-                r_ = bev(c_, bval)
+                r_ = bev(c_, bval, names)
                 ok_ = {ast.In: lambda: l_ in r_, ast.NotIn: lambda: l_ not in r_, ast.Eq: lambda: l_ == r_, ast.NotEq: lambda: l_ != r_,
                        ast.Lt: lambda: l_ < r_, ast.LtE: lambda: l_ <= r_, ast.Gt: lambda: l_ > r_, ast.GtE: lambda: l_ >= r_}[type(o)]()
                 if not ok_:
@@ -647,7 +657,13 @@ def _mm_table(run, F, PV, upd, D):
                     fornodes.add(lf.node)
                     it = bev(fold_consts(P, lf.deep(loop.iter), fl, None, locals_=set(fl.params)), bval)
                     acc = [t.id for st_ in loop.body if isinstance(st_, ast.Assign) for t in st_.targets if isinstance(t, ast.Name)]
-                    ok_ = it == range(bval - 0xF7) and len(acc) == 1 and acc[0] in lf.env and bev(lf.env[acc[0]], bval) == 0
+                    # the bytes read, in order: the index expression of the loop body evaluated for every value of the loop variable
+                    subs_ = [x for st_ in loop.body for x in ast.walk(st_) if isinstance(x, ast.Subscript) and norm(x.value) == bsn and not isinstance(x.slice, ast.Slice)]
+                    idxs = None
+                    if len(subs_) == 1 and isinstance(loop.target, ast.Name) and isinstance(it, range) and len(it) <= 8:
+                        idxs = [bev(fold_consts(P, lf.deep(subs_[0].slice, stop=(loop.target.id,)), fl, None, locals_=set(fl.params) | {loop.target.id}), bval,
+                                    {loop.target.id: i_}) for i_ in it]
+                    ok_ = idxs == list(range(1, bval - 0xF7 + 1)) and len(acc) == 1 and acc[0] in lf.env and bev(lf.env[acc[0]], bval) == 0
         except (Unknown, KeyError, TypeError):
             ok_ = False
         if not ok_:
@@ -669,9 +685,11 @@ def _mm_table(run, F, PV, upd, D):
             accn = norm(st_.targets[0]) if isinstance(st_, ast.Assign) else norm(st_.target)
             val = st_.value if isinstance(st_, ast.Assign) else ast.BinOp(left=ast.Name(id=accn, ctx=ast.Load()), op=st_.op, right=st_.value)
             shifted = {f"{accn} << 8", f"{accn} * 256", f"256 * {accn}"}
-            nxt = {f"{bsn}[1 + {iv}]", f"{bsn}[{iv} + 1]"}
+
+            def is_next(x):      # the byte at the index decided above (checked per case to be 1, 2, .. N)
+                return isinstance(x, ast.Subscript) and norm(x.value) == bsn and not isinstance(x.slice, ast.Slice)
             okl = isinstance(val, ast.BinOp) and isinstance(val.op, (ast.BitOr, ast.Add)) and (
-                (norm(val.left) in shifted and norm(val.right) in nxt) or (norm(val.right) in shifted and norm(val.left) in nxt))
+                (norm(val.left) in shifted and is_next(val.right)) or (norm(val.right) in shifted and is_next(val.left)))
             # after the loop: the accumulated value is returned
             inbody = {id(y) for x in loop.body for y in ast.walk(x)}
             after, todo, seen_ = set(), [s_ for ln in fornodes for s_ in gf.succ[ln]], set()
@@ -688,6 +706,4 @@ def _mm_table(run, F, PV, upd, D):
                                               and norm(n_.ast.value) == accn for n_ in after)
     run.check("R5", okl, "long-list length is accumulated big-endian and returned", key="rlp_first_element_list_payload_length|loop", where=fl.loc(),
               message=f"RLP long-list length: {why_} is not `L = L << 8 | {bsn}[1 + i]` followed by `return L`")
-    nd = defs_of(A, fl, "N")
-    run.check("R5", len(nd) == 1 and norm(nd[0].value) == "b - 247", "long form length-of-length", key="rlp_first_element_list_payload_length|N", where=fl.loc(),
-              message="N is not b - 0xF7")
+    # (the number of length bytes, b - 0xF7, is part of the 256-case table above: the indices read must be 1 .. b - 0xF7)
